@@ -94,4 +94,30 @@ CLAIMS = {
                      'string-building code, argument-forwarding and registry '
                      'agreement rules',
     },
+    'C14': {
+        'text': 'Decides structural clauses of subsetting-while-reading: '
+                'every third-party attribute chain in the package resolves '
+                'in the installed libraries (a removed API fails for every '
+                'input); tokens split off raw JSON text are individually '
+                'whitespace-normalised before they are looked up in the '
+                'remap table, and the two slicers/remappers act on their own '
+                'coordinate; observation<->rows<->shape[0] and '
+                'sample<->columns<->shape[1] in the JSON slicers and the '
+                "other axis' member is passed through; every subset path of "
+                'from_hdf5 and get_axis_indices contains a raise that '
+                'depends on both requested and stored ids; ids read from '
+                'HDF5 are decoded as utf8 before they are compared, '
+                'converted or handed to the constructor (flow-sensitive '
+                'taint); the empty-vector filter runs on the inverted axis '
+                'with a sign-insensitive predicate. The raw-text key scanner '
+                '(direct_parse_key) and indptr slicing arithmetic are not '
+                'decided.',
+        'note': 'Trusted: installed numpy/scipy/h5py/pandas/click namespaces '
+                '(imported to resolve names only); h5py returns bytes for '
+                'vlen-str datasets; numpy bytes->U is an ASCII decode.',
+        'technique': 'static analysis: API resolution against the installed '
+                     'namespace, flow-sensitive taint (bytes vs decoded '
+                     'text), dependence of refusals on requested and stored '
+                     'ids, token-normalisation and axis/key agreement rules',
+    },
 }
